@@ -12,3 +12,4 @@ import SmVerif.Model.DriverSelect
 import SmVerif.Model.DriverTax
 import SmVerif.Model.DriverJson
 import SmVerif.Model.DriverSearch
+import SmVerif.Model.DriverSetops
